@@ -132,9 +132,24 @@ func (eng *Engine) load(patterns []string) error {
 	}
 	for _, u := range eng.contracts.UFuns {
 		if _, ok := eng.ufuns[u.Name]; !ok {
-			uf := &UFun{Name: "uf." + u.Name, Ret: ghostSort(u.Ret)}
+			resolve := func(kind string) string {
+				srt := ghostSort(kind)
+				if srt != kind || strings.HasPrefix(kind, "(") {
+					return srt
+				}
+				// a Go type of the declaring package
+				for _, pm := range []map[string]*packages.Package{eng.pkgs, eng.depPkgs} {
+					if pk, ok := pm[u.Pkg]; ok {
+						if tv, err := types.Eval(pk.Fset, pk.Types, token.NoPos, kind); err == nil && tv.IsType() {
+							return eng.sc.sortOf(tv.Type)
+						}
+					}
+				}
+				return srt
+			}
+			uf := &UFun{Name: "uf." + u.Name, Ret: resolve(u.Ret)}
 			for _, a := range u.Args {
-				uf.Args = append(uf.Args, ghostSort(a))
+				uf.Args = append(uf.Args, resolve(a))
 			}
 			eng.ufuns[u.Name] = uf
 		}
@@ -342,7 +357,10 @@ func (eng *Engine) verifyFunc(p *packages.Package, key string) (*FuncVerifier, e
 		for _, f := range fd.Type.Results.List {
 			for _, nm := range f.Names {
 				if o, ok := p.TypesInfo.Defs[nm].(*types.Var); ok {
-					fv.declareVar(st, o, eng.sc.zero(o.Type()))
+					if fv.contract.Region == "" {
+						fv.declareVar(st, o, eng.sc.zero(o.Type()))
+					}
+					// (in a region the named results are ordinary enclosing locals: arbitrary at region entry)
 					fr.results = append(fr.results, o)
 				}
 			}
@@ -557,6 +575,9 @@ func (fv *FuncVerifier) ownEnvAt(st *State, errs *[]string, pos token.Pos) *spec
 		if t, ok := fv.entry.vars[o]; ok {
 			return Val{T: t, Ty: o.Type()}, true
 		}
+		if fv.regionStart.IsValid() && o.Pos() < fv.regionStart && !fv.boxed[o] {
+			return Val{T: fv.initialVar(o), Ty: o.Type()}, true
+		}
 		return Val{}, false
 	}
 	return env
@@ -615,7 +636,17 @@ func (fv *FuncVerifier) checkPost(st *State, final []Val, at ast.Node) {
 	for i, v := range final {
 		env.vars[fmt.Sprintf("result%d", i)] = v
 		if i == 0 {
-			env.vars["result"] = v
+			shadow := false
+			if sc := fv.pkg.Types.Scope().Innermost(fv.specPos); sc != nil {
+				if _, o := sc.LookupParent("result", fv.specPos); o != nil {
+					if _, isVar := o.(*types.Var); isVar {
+						shadow = true
+					}
+				}
+			}
+			if !shadow {
+				env.vars["result"] = v
+			}
 		}
 		if i == len(final)-1 && v.Ty != nil && isErrorType(v.Ty) && len(fv.frames[0].results) == 0 {
 			env.vars["err"] = v
